@@ -13,6 +13,11 @@ def parseOp (j : Json) : Except String (LOp Val × Bool) := do
   let op ← getStr j "op"
   match op with
   | "persist" => return (.map id, false)          -- no user function: its stage is silenced by the caller
+  | "sample" => do
+      -- sample(False, f, seed) with f = 0 or 1 is deterministic (`random() < 0.0` never, `< 1.0` always): a filter that
+      -- still PULLS every upstream element; no user function of its own (silenced like persist)
+      let keepAll ← getBool j "all"
+      return (.filter fun _ => keepAll, false)
   | "map" => do let f ← need (mapFn (← getStr j "f")) "mapFn"; return (.map f, false)
   | "filter" => do let p ← need (predFn (← getStr j "f")) "predFn"; return (.filter p, false)
   | "flatMap" => do let f ← need (flatFn (← getStr j "f")) "flatFn"; return (.flatMap f, false)
@@ -40,7 +45,7 @@ def handle (j : Json) : Json := run do
   let vo := parsed.map (·.2)
   -- stages without a user function (persist / cache) log nothing
   let silent : List Nat := opsJ.zipIdx.filterMap fun (o, i) =>
-    match o.getObjValAs? String "op" with | .ok "persist" => some i | _ => none
+    match o.getObjValAs? String "op" with | .ok "persist" => some i | .ok "sample" => some i | _ => none
   let keep := fun (evs : List (Ev Val)) => evs.filter fun e => !silent.contains e.stage
   let streams := parts.map fun p => build ops 0 (source p)
   let full := streams.map fun s => let (e, v) := pullAll s; (keep e, v)
